@@ -275,12 +275,12 @@ package ice
 //@ func (*PostingsIterator).nextAtOrAfter
 //@   ensures[C16] result1 != nil ==> result0 == nil
 //@   ghostset mergedfreq = old(mergedfreq) + ite(result0 != nil, cast(result0, "*Posting").freq, 0)
-//@   ensures[C16] result0 != nil ==> dyntype(result0) == typetag("*Posting") && cast(result0, "*Posting").freq >= 0
+//@   ensures[C02,C16] result0 != nil ==> dyntype(result0) == typetag("*Posting") && cast(result0, "*Posting").freq >= 0
 //@   ensures[C16] mergedfreq == old(mergedfreq) + ite(result0 != nil, cast(result0, "*Posting").freq, 0)
 //@
 //@ func (*PostingsIterator).Next
 //@   ensures[C16] result1 != nil ==> result0 == nil
-//@   ensures[C16] result0 != nil ==> dyntype(result0) == typetag("*Posting") && cast(result0, "*Posting").freq >= 0
+//@   ensures[C02,C16] result0 != nil ==> dyntype(result0) == typetag("*Posting") && cast(result0, "*Posting").freq >= 0
 //@   ensures[C16] mergedfreq == old(mergedfreq) + ite(result0 != nil, cast(result0, "*Posting").freq, 0)
 //@
 //@ // prepareNewTerm only counts documents; it delivers no posting and must leave the statistics alone
@@ -302,7 +302,7 @@ package ice
 //@ func mergeTermFreqNormLocs
 //@   requires[C16] 0 <= fieldID && fieldID <= 65535 && postItr != nil && fieldFreqs != nil
 //@   let pending = ite(next != nil, cast(next, "*Posting").freq, 0)
-//@   loop 0 invariant[C16] next != nil ==> dyntype(next) == typetag("*Posting") && cast(next, "*Posting").freq >= 0
+//@   loop 0 invariant[C02,C16] next != nil ==> dyntype(next) == typetag("*Posting") && cast(next, "*Posting").freq >= 0
 //@   loop 0 invariant[C16] fieldFreqs[uint16(fieldID)] - mergedfreq + pending == old(fieldFreqs[uint16(fieldID)] - mergedfreq)
 //@   ensures[C16] err == nil ==> fieldFreqs[uint16(fieldID)] - mergedfreq == old(fieldFreqs[uint16(fieldID)] - mergedfreq)
 //@
@@ -1078,3 +1078,45 @@ package ice
 //@   ensures[C07,C13] result0 == di.curChunkNum
 //@ func (*docValueReader).visitDocValues
 //@   requires[C07,C13] @cached_chunk_is_the_documents di != nil && di.curChunkNum == docNum / 1024
+//@
+//@ // ---------------------------------------------------------------------------
+//@ // C02: the merger's per-term mechanisms
+//@ // (the document mapping is C03, statistics C16, stored offsets C06, doc values C07)
+//@ func (*Posting).Number
+//@   requires p != nil
+//@   pure
+//@   ensures[C02] result0 == p.docNum
+//@ func (*chunkedIntCoder).SetChunkSize
+//@   frames[C02] c.chunkSize
+//@   ensures[C02] c.chunkSize == chunkSize
+//@ func (*chunkedIntCoder).FinalSize
+//@   pure
+//@   ensures[C02] result0 == len(c.final)
+//@
+//@ // chunk size of the merged term: both encoders get the frozen function of the output chunk mode,
+//@ // the number of surviving postings counted over the contributing lists, and the merged doc count
+//@ func prepareNewTerm
+//@   requires[C02] tfEncoder != nil && locEncoder != nil && tfEncoder != locEncoder
+//@   at call:getChunkSize#0 lemma[C02] result1 == nil ==> result0 == chunkSizeV2(chunkMode, newCard, newSegDocCount)
+//@   ensures[C02] @both_encoders_same_chunk_size result0 == nil ==> tfEncoder.chunkSize == locEncoder.chunkSize
+//@
+//@ // 1-hit compaction only for a single posting with frequency 1, no location bytes and a
+//@ // document number below 2^31, carrying that posting's norm bits
+//@ func finishTerm$1
+//@   ensures[C02] @one_hit_only_when_safe result0 ==> termCardinality == 1 && len(locEncoder.final) <= 0 && result1 <= 2147483647 && result1 == deref(lastDocNum) && deref(lastFreq) == 1 && result2 == deref(lastNorm)
+//@   ensures[C02] !result0 ==> result1 == 0 && result2 == 0
+//@
+//@ // a term none of whose documents survived writes nothing and gets no dictionary entry
+//@ func writePostings
+//@   ensures[C02] @no_survivor_no_postings card(old(bset(postings))) == 0 ==> offset == 0 && err == nil && w.n == old(w.n)
+//@ func finishTerm
+//@   at call:(*github.com/blevesearch/vellum.Builder).Insert#0 lemma[C02] card(bset(newRoaring)) > 0
+//@
+//@ // every delivered posting is re-encoded under the new number of its document, never under
+//@ // the dropped sentinel, and each location under the merged id of its own field
+//@ func mergeTermFreqNormLocs
+//@   at call:(*github.com/RoaringBitmap/roaring.Bitmap).Add#0 lemma[C02] hitNewDocNum != dropped() && hitNewDocNum == newDocNums[cast(next, "*Posting").docNum]
+//@ func newChunkedIntCoder
+//@   ensures[C02] result0 != nil && fresh(result0)
+//@ func persistMergedRestField
+//@   requires[C02] tfEncoder != nil && locEncoder != nil && tfEncoder != locEncoder
